@@ -14,11 +14,13 @@ import (
 )
 
 type prop struct {
-	gen  func(tier string, seed uint64, emit func(string))
-	exec func(input string) string
+	gen func(tier string, seed uint64, emit func(string))
 }
 
 var props = map[string]*prop{}
+
+// executors by case kind (first token of an input line)
+var execs = map[string]func(input string) string{}
 
 func main() {
 	if len(os.Args) < 3 {
@@ -71,5 +73,13 @@ func safeExec(p *prop, in string) (obs string) {
 			obs = "PANIC-IN-HARNESS " + strings.ReplaceAll(fmt.Sprint(r), "\n", " ")
 		}
 	}()
-	return p.exec(in)
+	kind := in
+	if i := strings.IndexByte(in, ' '); i >= 0 {
+		kind = in[:i]
+	}
+	ex, ok := execs[kind]
+	if !ok {
+		return "PANIC-IN-HARNESS unknown case kind " + kind
+	}
+	return ex(in)
 }
